@@ -461,7 +461,7 @@ Section StepOk.
 
   Lemma ro_step_ok n w st bs v r st' : ro_step te R n w st bs = Ok (v, r, st') -> suffix r bs.
   Proof.
-    unfold ro_step. destruct (te_lookup te n); [|discriminate]. intros H.
+    unfold ro_step. destruct (te_lookup te n) as [gfs0|]; [|discriminate]. destruct (has_dup (bound_names gfs0 w)); [discriminate|]. intros H.
     apply bind_ok in H. destruct H as ([[fs r1] st1] & E & H). apply Hrfs in E. inversion H; subst. exact E.
   Qed.
 
